@@ -43,6 +43,12 @@ var plans = map[string]PropPlan{
 		QuickSecs: 100, ThoroughSecs: 1200,
 		Assumptions: append([]string{"time is virtual: a configured timer may fire at any scheduling point (one preemption while other threads can run; free when everything else is blocked); both the legacy buffered timer channel and the Go 1.23 semantics are explored"}, schedAssume...),
 	},
+	"C08": {
+		Quick:     []Plan{{Scenario: "conn.flush", PB: 2, DB: 1}},
+		Thorough:  []Plan{{Scenario: "conn.flush", PB: 3, DB: 2}},
+		QuickSecs: 90, ThoroughSecs: 1200,
+		Assumptions: append([]string{"time is virtual (write timer may fire at any scheduling point)", "explored up to the first reported write error per connection: flushing again after a timeout is outside the guarantee (C04 scope) and not driven", "short writes / EAGAIN on sendmsg are injected as environment deviations; genuinely full socket buffers come from a real 8 KB AF_UNIX socketpair"}, schedAssume...),
+	},
 	"C09": {
 		Quick:     []Plan{{Scenario: "conn.lifecycle", PB: 2, DB: 0}},
 		Thorough:  []Plan{{Scenario: "conn.lifecycle", PB: 3, DB: 0}},
